@@ -17,11 +17,12 @@ import (
 
 // World is one simulated deployment: a leader cluster and (optionally) a follower cluster.
 type World struct {
-	net     *simnet.Network
-	u       *dragonboat.Universe
-	leaders []*Node
-	follow  []*Node
-	clients map[string]*grpc.ClientConn
+	net           *simnet.Network
+	u             *dragonboat.Universe
+	leaders       []*Node
+	follow        []*Node
+	clients       map[string]*grpc.ClientConn
+	noReplication bool
 }
 
 type WorldCfg struct {
